@@ -4,7 +4,7 @@
 use crate::observe::{Observer, Strictness};
 use crate::ops::{Op, Query, RefreshExpect, apply_to_model};
 use crate::refgraph::Reference;
-use crate::world::{Disk, Model, SLOTS, Side};
+use crate::world::{Disk, Model, SLOTS, SLOT_E, Side};
 use std::collections::BTreeMap;
 use std::panic::{AssertUnwindSafe, catch_unwind};
 use std::path::Path;
@@ -192,7 +192,16 @@ impl Executor<'_> {
                 | Op::Ask { root, query } | Op::AskSnapshot { root, query } => {
                     record.stats.queries += 1;
                     model.name(*root);
-                    let s_root = s_side.path(*root);
+                    // every fifth step the root is named by a spelling that is not canonical
+                    // (`<world>/d/../root.zy`): answers must not keep the spelling of a request
+                    let respell = step % 5 == 2 && !SLOTS[*root].contains('/');
+                    let spell = |side: &Side| {
+                        if respell { side.path(SLOT_E).parent().unwrap().join("..").join(SLOTS[*root]) } else { side.path(*root) }
+                    };
+                    if respell {
+                        Stats::bump(&mut record.stats.probes, "root_asked_by_a_non_canonical_spelling");
+                    }
+                    let s_root = spell(&s_side);
                     let through_snapshot = matches!(op, Op::AskSnapshot { .. });
                     let answer_s = if through_snapshot {
                         let snapshot = session.snapshot();
@@ -260,7 +269,7 @@ impl Executor<'_> {
                         fresh = Some(Fresh { version: model.version, session: f_session });
                     }
                     let f_session = &fresh.as_ref().unwrap().session;
-                    let f_root = f_side.path(*root);
+                    let f_root = spell(&f_side);
                     let answer_f = observe_f.ask(f_session, &f_root, query);
                     let mut event = json!({
                         "step": step, "op": op.to_json(), "answer": answer_kind(&answer_s),
